@@ -40,7 +40,7 @@ FAULTS = (["undefined:" + s for s in UNDEF_SLOTS]
              "complex:float-array-literal", "complex:float-array-computed", "complex:int-array-computed", "complex:via-variable"]
           + ["complex:float-scalar-zero-imag", "complex:int-array-zero-imag"]
           + ["looptype:str-in-int", "looptype:float-in-int", "looptype:str-in-float", "looptype:int-in-str", "looptype:near-integer-in-int"]
-          + ["include:arity", "include:keywords"])
+          + ["include:arity", "include:keywords", "undefined:name-declared-in-included-file"])
 REQUIRED_TAGS = ["fault:" + f for f in FAULTS]
 EXPECT = {"undefined": "undefined", "reserved": "reserved-name", "mode": "mode-type", "complex": "complex-to-real", "looptype": "loop-type"}
 
@@ -268,6 +268,53 @@ def include_case(ctx, rng, g, fault):
         shutil.rmtree(root, ignore_errors=True)
 
 
+def included_name_case(ctx, rng, g):
+    """The name is declared by an included file (possibly one that file includes in turn) and used, undeclared, by the
+    including script: variables of an included program are its own, the including script uses a name before it is defined."""
+    G = gen.Gen(rng, g, layout=0.0)
+    nm, sub, sub2 = G.ident(), G.ident(), G.ident()
+    decl = rng.choice(["float %s = 0.3", "int %s = 2", "complex %s = 1+2j", "float array %s =\n    1, 2", "str %s = \"s\""]) % nm
+    files = {"lib/inc.xbb": "name %s\nversion 1.0\n\n%s\nSgate(0.5) | 3\nBSgate | [3, 5]\n" % (sub, decl)}
+    inc_line = 'include "lib/inc.xbb"'
+    if rng.random() < 0.3:
+        files["lib/deep.xbb"] = files["lib/inc.xbb"].replace("name " + sub, "name " + sub2)
+        files["lib/inc.xbb"] = "name %s\nversion 1.0\ninclude \"deep.xbb\"\n\nSgate(0.5) | 3\n%s | [3, 5]\n" % (sub, sub2)
+    body = []
+    if rng.random() < 0.6:
+        body.append("%s | [%d, %d]" % (sub, rng.randint(0, 4), rng.randint(5, 9)))
+    if rng.random() < 0.4:
+        body.append("float other_%s = 1.5" % nm[:3])
+    use = rng.choice(["G(%s) | 0", "G(1, k=%s) | 0", "G(k=[1, %s]) | 0", "G(2*%s + 1) | 0", "G | %s", "float zz = %s"]) % nm
+    body.append(use)
+    if rng.random() < 0.5:
+        body.append("Vac | 1")
+    head = ["name m_%s" % nm[:4], "version 1.0", inc_line, ""]
+    files["main.xbb"] = "\n".join(head + body) + "\n"
+    line = len(head) + len(body) - (1 if body[-1] == "Vac | 1" else 0)
+    col = use.index(nm) if not use.startswith("G(2*") else use.index(nm)
+    root = os.path.realpath(tempfile.mkdtemp(prefix="bbv-c11n-"))
+    try:
+        c07.materialise(root, files)
+        k = c07.ref_of(files, "main.xbb", root)
+        if k[0] != "ill" or k[1].kind != "undefined" or k[1].name != nm:
+            return ctx.out_of_domain("included-name fault not certified by the reference (%s)" % (k[0] if k[0] != "ill" else k[1].kind))
+        if k[1].line is not None:
+            line, col = k[1].line, k[1].col
+
+        def loader():
+            import blackbird
+
+            try:
+                return blackbird.load(os.path.join(root, "main.xbb")), None
+            except Exception as e:
+                return None, e
+
+        check_case(ctx, repr(sorted(files.items())), "undefined:name-declared-in-included-file", "undefined", nm, line, col, loader=loader,
+                   witness={"files": files, "main": "main.xbb", "fault": "undefined:name-declared-in-included-file"})
+    finally:
+        shutil.rmtree(root, ignore_errors=True)
+
+
 def run(ctx):
     g = common.grammar()
     if ctx.worker == 0:
@@ -277,6 +324,12 @@ def run(ctx):
     for i in range(n):
         rng = ctx.rng(i)
         fault = FAULTS[(i * ctx.nworkers + ctx.worker) % len(FAULTS)] if rng.random() < 0.5 else rng.choice(FAULTS)
+        if fault == "undefined:name-declared-in-included-file":
+            if rng.random() < 0.5:
+                included_name_case(ctx, rng, g)
+            else:
+                ctx.out_of_domain("include fault skipped (cost)")
+            continue
         if fault.startswith("include:"):
             if rng.random() < 0.35:
                 include_case(ctx, rng, g, fault)
